@@ -41,12 +41,14 @@ theorem C04_cancel_aborts_and_forgets (s : St) (id : Nat) (e : SEntry) (h : find
     · intro r hr
       rw [h1]
       have : ∀ (s1 : St) k, getExec (removeTimer s1 k) r = getExec s1 r := by
-        intro s1 k; unfold removeTimer; split <;> rfl
+        intro s1 k; unfold getExec; rw [removeTimer_execs]
       rw [this, getExec_abortExec_ne _ _ _ hr]
       rfl
     · intro q w hq
       rw [h1]
-      simp [removeTimer, hq]
+      rw [removeTimer_of_some (s := abortExec { s with inflight := s.inflight.filter (·.id != id) } e.rid)
+        (by simpa using hq)]
+      cases w <;> simp
 
 /-- **C04 mechanism: a `Cancel` for an untracked id is the identity.** -/
 theorem C04_cancel_untracked_identity (s : St) (id : Nat) (h : findEntry s id = none) :
